@@ -26,7 +26,7 @@ func c20(c *Ctx) {
 	r.Rule("R20.P", "every panic-capable operation reachable from Resolve is discharged by a guard or accepted with a reason", 2)
 	r.Rule("R20.T", "path templates are pairwise disjoint (different segment counts or a differing literal segment)", 1)
 	r.Rule("R20.H", "reserved hosts = the five Telegram hosts; membership tested on Hostname(); scheme arms route as documented", 4)
-	r.Rule("R20.L", "Domain = lower-cased path variable; Invite = the path variable unchanged; empty variables are errors", 2)
+	r.Rule("R20.L", "Domain = lower-cased path variable; Invite = the path variable unchanged; the templates are matched against u.Path itself; empty variables are errors", 3)
 	tr := an.NewTracer()
 
 	res := c.fn("R20.P", load.DeepPkg, "", "Resolve")
@@ -226,6 +226,11 @@ func c20(c *Ctx) {
 					emptyGuards++
 				}
 			}
+		}
+		for _, cs := range an.CallsNamed(hf, load.DeepPkg+".matchPath") {
+			o := tr.OriginString(cs.Common.Args[1])
+			r.Check(strings.HasSuffix(o, "url.URL.Path") && !strings.Contains(o, "call:"), "R20.L", "match:path-verbatim", c.pos(cs.Pos()),
+				"the path matched against the templates is "+simplifyOrigin(o)+" (must be u.Path itself: the invite token is case-sensitive and /JoinChat/x is not an invite)")
 		}
 		r.Check(strings.HasPrefix(dom, "call:strings.ToLower"), "R20.L", "domain:lower-cased", c.pos(hf.Pos()), "Domain ← "+dom)
 		r.Check(inv != "" && !strings.Contains(inv, "ToLower") && !strings.Contains(inv, "ToUpper"), "R20.L", "invite:verbatim", c.pos(hf.Pos()), "Invite ← "+inv)
